@@ -371,6 +371,22 @@ def Node.lenOkL : List Node → Prop
   | n :: r => n.lenOk ∧ Node.lenOkL r
 end
 
+/-- a balanced list of low-level operations → the forest it describes (`none`: not balanced, or a
+`utctime` that panics); `st` = the open compounds (tag, the siblings before it), `acc` = the nodes of the
+innermost open compound so far, reversed -/
+def forestAux : List Low → List (Nat × List Node) → List Node → Option (List Node)
+  | [], [], acc => some acc.reverse
+  | [], _ :: _, _ => none
+  | .tlv t c :: r, st, acc => forestAux r st (.prim t c :: acc)
+  | .raw b :: r, st, acc => forestAux r st (.raw b :: acc)
+  | .start t :: r, st, acc => forestAux r ((t, acc) :: st) []
+  | .stop :: r, (t, outer) :: st, acc => forestAux r st (.cons t acc.reverse :: outer)
+  | .stop :: _, [], _ => none
+  | .panic :: _, _, _ => none
+
+/-- the forest of a balanced sequence of `CertConsumer` operations -/
+def forest (ops : List Op) : Option (List Node) := forestAux (ops.map Op.low) [] []
+
 /-- a parsed DER value -/
 inductive Der
   | prim (tag : Nat) (content : List Nat)
